@@ -48,6 +48,13 @@
  * missing; the descriptor is closed exactly once, never used afterwards, and
  * nothing is called after a failed open.
  *
+ * --deep (given by ./check to the thorough tier only; implies the thorough bounds and adds to them).  Part 1:
+ * request lengths 2, 48, 63, 65, 4096, 131071, 196608, 262145, 16777217 (257 generate calls: every such call crosses
+ * a reseed, two from reseed_counter 257) and 33554433 (513 generate calls: two reseeds inside one call from every
+ * state, three from reseed_counter 257).  Part 2: requests of 48 bytes (instantiation) and of 32 bytes (reseed), <= 7
+ * deviations; the same depth-first enumeration, cut into one unit per (request size, answer to open, answer to the
+ * first read) so that it runs on the worker pool.
+ *
  * Not covered: RDRAND mixing (excluded by the property), entropy contents
  * other than the index-derived pattern (data independence), malloc failure in
  * entropy_read_init (C14), close failing with EIO.
@@ -106,7 +113,9 @@ struct rep { uint8_t snap[SNAPLEN]; struct ref_hmac_drbg ref; uint64_t impl_i, m
 #define KEYLEN 11
 static struct esh S;
 static struct rep * reps; static size_t repcap;
-static size_t LENS[16]; static int NLENS;
+#define MAXLENS 32
+static size_t LENS[MAXLENS]; static int NLENS;
+static int deep;	/* --deep: bounds beyond the thorough ones (header) */
 static char casebuf[480];
 static uint32_t curop; static size_t curstate;
 
@@ -345,7 +354,7 @@ ref_selftest(void)
 
 /* =====================  Part 2: util/entropy.c  ===================== */
 #define OSFD 9731
-#define OSLEN 48
+static size_t OSLEN = 48;	/* the request size (deep: also 32) */
 static struct {
 	int armed;
 	int prefix[80], preflen;		/* choices to follow */
@@ -427,7 +436,8 @@ os_fail(const char * rule, const char * fmt, ...)
 	snprintf(sig, sizeof(sig), "C11:osentropy:%s", rule);
 	if (replaying) { printf("  VIOLATION %s: %s\n", sig, msg); return; }
 	ch[0] = 0; for (i = 0; i < os.depth && o + 12 < sizeof(ch); i++) o += (size_t)snprintf(ch + o, sizeof(ch) - o, "%s%d", i ? "," : "", os.rec[i]);
-	snprintf(rj, sizeof(rj), "{\"case\":\"os dev=%d choices=%s\"}", os.bound, ch);
+	if (OSLEN == 48) snprintf(rj, sizeof(rj), "{\"case\":\"os dev=%d choices=%s\"}", os.bound, ch);
+	else snprintf(rj, sizeof(rj), "{\"case\":\"os dev=%d len=%zu choices=%s\"}", os.bound, OSLEN, ch);
 	vf_violation(sig, rj, "%s; answers (0 = default) [%s]", msg, ch);
 }
 /* one execution following os.prefix; returns 1 on violation */
@@ -438,12 +448,12 @@ os_execute(void)
 	os.depth = 0; os.devs = 0; os.opened = os.open_failed = os.closes_ok = os.closed = os.use_after_close = os.calls_after_failed_open = os.oversize = 0;
 	os.delivered = 0; os.src_failed = 0; edge_failed = 0;
 	ch[0] = 0; for (i = 0; i < os.preflen && o + 12 < sizeof(ch); i++) o += (size_t)snprintf(ch + o, sizeof(ch) - o, "%s%d", i ? "," : "", os.prefix[i]);
-	vf_setcase("os dev=%d choices=%s", os.bound, ch);
+	if (OSLEN == 48) vf_setcase("os dev=%d choices=%s", os.bound, ch); else vf_setcase("os dev=%d len=%zu choices=%s", os.bound, OSLEN, ch);
 	os.buf = malloc(OSLEN); memset(os.buf, 0x5C, OSLEN);
 	os.armed = 1; rc = verif_os_entropy_read(os.buf, OSLEN); os.armed = 0;
 	expect_ok = os.opened && !os.src_failed && os.delivered == OSLEN;
-	if (replaying) printf("   entropy_read(48) returns %d; %zu bytes delivered, source %s\n", rc, os.delivered, os.src_failed ? "failed" : os.open_failed ? "could not be opened" : "ok");
-	if (expect_ok && rc != 0) os_fail("spurious-failure", "all 48 bytes were delivered but entropy_read returned %d", rc);
+	if (replaying) printf("   entropy_read(%zu) returns %d; %zu bytes delivered, source %s\n", OSLEN, rc, os.delivered, os.src_failed ? "failed" : os.open_failed ? "could not be opened" : "ok");
+	if (expect_ok && rc != 0) os_fail("spurious-failure", "all %zu bytes were delivered but entropy_read returned %d", OSLEN, rc);
 	else if (!expect_ok && rc != -1) os_fail("success-without-entropy", "the source %s after %zu bytes but entropy_read returned %d", os.open_failed ? "could not be opened" : "failed", os.delivered, rc);
 	else if (expect_ok) { for (k = 0; k < OSLEN; k++) if (os.buf[k] != os_stream(k)) { os_fail("bytes", "byte %zu of the result is 0x%02x, the source delivered 0x%02x at that position", k, os.buf[k], os_stream(k)); break; } }
 	if (!edge_failed && os.oversize) os_fail("read-size", "read was asked for more bytes than are missing (or for none)");
@@ -477,6 +487,34 @@ os_search(uint64_t unit)
 	vf_setmax("osentropy.exhaustive", 1);
 }
 
+/*
+ * deep: the same enumeration cut into units.  unit = request size index * OSUNITS + k; k = 0: open fails; k >= 1: open
+ * succeeds and the first read is answered with choice k - 1 (the 32-byte request has only 35 of them).  Inside a unit
+ * the depth-first successor never changes the fixed prefix.
+ */
+static const size_t OSLENS_DEEP[2] = { 48, 32 };
+#define OSUNITS (1 + 48 + 3)
+static void
+os_search_deep(uint64_t unit)
+{
+	int d, fix, k = (int)(unit % OSUNITS); uint64_t n = 0;
+	OSLEN = OSLENS_DEEP[unit / OSUNITS];
+	if (k >= 1 && k - 1 >= (int)OSLEN + 3) return;
+	if (k == 0) { os.prefix[0] = 1; fix = 1; } else { os.prefix[0] = 0; os.prefix[1] = k - 1; fix = 2; }
+	os.preflen = fix;
+	for (;;) {
+		if ((n++ & 1023) == 0 && vf_deadline_hit()) return;
+		os_execute();
+		if (os.depth < fix) vf_engine_error("os: execution shorter than the unit's prefix");
+		if (n % 400009 == 7) { char ch[300]; size_t o = 0; int i; ch[0] = 0; for (i = 0; i < os.depth && o + 12 < sizeof(ch); i++) o += (size_t)snprintf(ch + o, sizeof(ch) - o, "%s%d", i ? "," : "", os.rec[i]); vf_sample("osentropy: %zu-byte request, answers [%s] (0 = everything asked for) -> %zu bytes delivered, result and descriptor discipline checked", OSLEN, ch, os.delivered); }
+		for (d = os.depth - 1; d >= fix; d--) if (os.rec[d] + 1 < os.nopt[d]) break;
+		if (d < fix) break;
+		memcpy(os.prefix, os.rec, (size_t)d * sizeof(int)); os.prefix[d] = os.rec[d] + 1; os.preflen = d + 1;
+	}
+	vf_count("osentropy.traces", n);
+	vf_count("osentropy.units_done", 1);
+}
+
 /* =====================  driver  ===================== */
 static int
 do_replay(const char * js)
@@ -488,9 +526,10 @@ do_replay(const char * js)
 	if (strncmp(p, "os ", 3) == 0) {
 		const char * c = strstr(p, "choices=");
 		if (sscanf(p, "os dev=%d", &os.bound) != 1 || c == NULL) vf_engine_error("replay: cannot parse %s", p);
+		{ const char * lp = strstr(p, " len="); if (lp != NULL && lp < c) OSLEN = (size_t)atoi(lp + 5); if (OSLEN < 1 || OSLEN > 48) vf_engine_error("replay: bad request size"); }
 		os.preflen = 0;
 		for (c += 8; *c && *c != '"'; ) { os.prefix[os.preflen++] = atoi(c); while (*c && *c != ',' && *c != '"') c++; if (*c == ',') c++; }
-		printf("replay entropy_read(48) from util/entropy.c with %d scripted answers\n", os.preflen);
+		printf("replay entropy_read(%zu) from util/entropy.c with %d scripted answers\n", OSLEN, os.preflen);
 		os_execute();
 	} else {
 		struct rep r; struct res out; const char * q = strstr(js, "\"requests\":\"");
@@ -504,7 +543,7 @@ do_replay(const char * js)
 			for (q += 12; *q && *q != '"'; ) {
 				if (sscanf(q, "%zu/%u", &L, &F) != 2) vf_engine_error("replay: bad request list");
 				for (l = 0; l < NLENS; l++) if (LENS[l] == L) break;
-				if (l == NLENS) { if (NLENS == 16) vf_engine_error("replay: too many distinct lengths"); LENS[NLENS] = L; l = NLENS++; }
+				if (l == NLENS) { if (NLENS == MAXLENS) vf_engine_error("replay: too many distinct lengths"); LENS[NLENS] = L; l = NLENS++; }
 				printf("  call %d: crypto_entropy_read(%zu)%s\n", ++n, L, F ? " with the entropy source failing at its next call" : "");
 				drbg_edge(&r, ((uint32_t)l << 1) | F, &out);
 				if (edge_failed) break;
@@ -514,7 +553,7 @@ do_replay(const char * js)
 			}
 		} else {
 			for (l = 0; l < NLENS; l++) if (LENS[l] == L) break;
-			if (l == NLENS) { LENS[NLENS] = L; l = NLENS++; }
+			if (l == NLENS) { if (NLENS == MAXLENS) vf_engine_error("replay: too many distinct lengths"); LENS[NLENS] = L; l = NLENS++; }
 			printf("replay crypto_entropy_read(%zu)%s from the recorded generator state (no request history in this record)\n", L, F ? " with the entropy source failing at its next call" : "");
 			drbg_edge(&r, ((uint32_t)l << 1) | F, &out);
 		}
@@ -526,19 +565,28 @@ do_replay(const char * js)
 int
 main(int argc, char ** argv)
 {
-	static const size_t q[] = {0, 1, 31, 32, 33, 65535, 65536, 65537, 131073}, t[] = {64, 1024, 131072, 196609};
+	static const size_t q[] = {0, 1, 31, 32, 33, 65535, 65536, 65537, 131073}, t[] = {64, 1024, 131072, 196609},
+	    dp[] = {2, 48, 63, 65, 4096, 131071, 196608, 262145, 16777217, 33554433};
 	size_t i;
 	vf_init(&argc, argv, "h_drbg");
+	for (i = 1; i < (size_t)argc; i++) if (!strcmp(argv[i], "--deep")) { deep = 1; vf_tier = 1; }	/* deep extends the thorough bounds */
 	for (i = 0; i < sizeof(q) / sizeof(q[0]); i++) LENS[NLENS++] = q[i];
 	if (vf_tier) for (i = 0; i < sizeof(t) / sizeof(t[0]); i++) LENS[NLENS++] = t[i];
-	os.bound = vf_tier ? 5 : 3;
+	if (deep) for (i = 0; i < sizeof(dp) / sizeof(dp[0]); i++) LENS[NLENS++] = dp[i];
+	os.bound = deep ? 7 : vf_tier ? 5 : 3;
 	ref_selftest();
 	if (vf_replay) return do_replay(vf_replay);
 	vf_info("bounds", "generator: request lengths {0,1,31,32,33,65535,65536,65537,131073%s} x {entropy ok, entropy fails at its next call} from every (instantiated, reseed_counter) state, fixed point; "
 	    "OS entropy: 48-byte request, every answer sequence of open{ok,EACCES} read{all, each shorter length, 0, EIO, EINTR} close{0, EINTR} with <= %d deviations",
-	    vf_tier ? ",64,1024,131072,196609" : "", os.bound);
+	    deep ? ",64,1024,131072,196609,2,48,63,65,4096,131071,196608,262145,16777217,33554433" : vf_tier ? ",64,1024,131072,196609" : "", os.bound);
+	if (deep) vf_info("bounds_deep", "OS entropy: requests of 48 and of 32 bytes, one unit per (request size, answer to open, answer to the first read)");
 	drbg_search();
-	vf_parallel(1, os_search);
+	if (deep) {
+		vf_count("osentropy.exhaustive", 0);
+		vf_parallel(2 * OSUNITS, os_search_deep);
+		if (!vf_deadline_hit() && vf_getcount("osentropy.units_done") == (uint64_t)(1 + 48 + 3) + (uint64_t)(1 + 32 + 3) && vf_getcount("crashed_units") == 0) vf_setmax("osentropy.exhaustive", 1);
+	} else
+		vf_parallel(1, os_search);
 	if (!vf_deadline_hit() && vf_nviolations() == 0 && vf_getcount("crashed_units") == 0) {
 		if (vf_getcount("osentropy.successes") < 100 || vf_getcount("osentropy.failures") < 100) vf_engine_error("OS entropy exploration is vacuous (open/read/close not diverted?)");
 	}
